@@ -393,6 +393,20 @@ DB_NAMES = ["db", "Db2"]
 CAT_NAMES = ["cat", "C2"]
 
 
+_SEMI = {}
+
+
+def keeps_semi_join(dialect):
+    """does the dialect's generator print SEMI/ANTI joins as such (otherwise it rewrites them to EXISTS subqueries)?"""
+    if dialect not in _SEMI:
+        sqlglot = sg()[0]
+        try:
+            _SEMI[dialect] = "SEMI" in sqlglot.parse_one("SELECT 1 FROM a SEMI JOIN b ON a.x = b.x", dialect=dialect).sql(dialect=dialect)
+        except Exception:  # noqa
+            _SEMI[dialect] = False
+    return _SEMI[dialect]
+
+
 class Gen:
     def __init__(self, rng, dialect, model_stream, unicode_ok=False):
         _, exp, Dialect, *_ = sg()
@@ -549,7 +563,7 @@ class Gen:
                     self.features.add("using")
                     kind = ""
                     if rng.random() < 0.2:
-                        kind = rng.choice(["SEMI ", "ANTI ", "LEFT ", "FULL "])
+                        kind = rng.choice(["SEMI ", "ANTI ", "LEFT ", "INNER "] if keeps_semi_join(self.dialect) else ["LEFT ", "INNER "])
                         self.features.add("using-" + kind.strip().lower())
                     from_sql.append(f" {kind}JOIN {s} USING ({self.ref(rng.choice(common), 0.05)})")
                 elif not self.model and jr < 0.55:
@@ -966,7 +980,8 @@ def oracle(sql, nested_schema, dialect):
                     run = [(tname, c) for c in tcols]
                     flat1 = [(e.table, e.name) if isinstance(e, exp.Column) else None for e in (x.unalias() for x in s1n.expressions)]
                     if not any(flat1[i:i + len(run)] == run for i in range(len(flat1) - len(run) + 1)):
-                        return ("qualified-star-wrong-columns",
+                        earlier_star = any(q.is_star for q in s0.expressions[: s0.expressions.index(p)])
+                        return ("star-with-using-wrong-columns" if earlier_star else "qualified-star-wrong-columns",
                                 f"{tname}.* must list {tname}'s columns {tcols} ({tname} takes no part in a USING merge); got "
                                 f"{[x.sql(dialect=dialect) for x in s1n.expressions]} in {s1!r}")
         if not known or has_using:
@@ -1407,8 +1422,15 @@ def db_default_oracle(sql, schema, dialect, as_text, use_catalog, pick):
     ctes = {c.alias.lower() for c in full.find_all(exp.CTE)}
     short = full.copy()
     stripped = 0
+    dd = Dialect.get_or_raise(dialect)
+
+    def name_stable(t):
+        # BigQuery folds an UNQUALIFIED table name (it may be a CTE) and keeps a qualified one: by design
+        bare = exp.Table(this=t.this.copy())
+        return dd.normalize_identifier(bare.this).this == dd.normalize_identifier(t.copy().this).this
+
     for t in short.find_all(exp.Table):
-        if t.args.get("db") == dbi and t.name.lower() not in ctes and \
+        if t.args.get("db") == dbi and t.name.lower() not in ctes and name_stable(t) and \
                 ((cati is None and not t.args.get("catalog")) or (cati is not None and t.args.get("catalog") == cati)):
             t.set("db", None)
             t.set("catalog", None)
@@ -1422,11 +1444,9 @@ def db_default_oracle(sql, schema, dialect, as_text, use_catalog, pick):
     for tree in (full, short):
         try:
             outs.append(qualify(tree.copy(), schema=schema, dialect=dialect, **kw).sql(dialect=dialect))
-        except OptimizeError as e:
-            outs.append("<OptimizeError: " + str(e).split(".")[0][:60] + ">")
-        except Exception as e:  # noqa
-            outs.append(f"<{type(e).__name__}>")
-    if outs[0] != outs[1]:
+        except Exception as e:  # noqa  (which of several errors is met first may differ; that both fail is what counts)
+            outs.append(f"<error: {type(e).__name__}: {str(e)[:80]}>")
+    if outs[0] != outs[1] and not (outs[0].startswith("<error") and outs[1].startswith("<error")):
         return ("default-db-differs-from-hand-qualified",
                 f"{short.sql(dialect=dialect)!r} with {', '.join(k + '=' + repr(v if isinstance(v, str) else v.sql(dialect=dialect)) for k, v in kw.items())} "
                 f"qualifies to {outs[1][:220]!r}; written out as {full.sql(dialect=dialect)!r} it qualifies to {outs[0][:220]!r}")
@@ -1576,7 +1596,20 @@ def search(chk: Check, hints, budget_s):
             g2 = Gen(rng, d2, False)
             g2.min_depth, g2.full_paths = 2, True
             schema2 = g2.fresh_schema()
-            sql2, _ = g2.select(0, {})
+            if rng.random() < 0.7:
+                # small valid queries: stars and known columns over fully written tables
+                picks = rng.sample(g2.flat, min(len(g2.flat), rng.choice([1, 1, 2])))
+                frm, sel = [], []
+                for pi, (path, cols) in enumerate(picks):
+                    q_ = rng.random() < 0.3
+                    al = rng.choice([None, "s%d" % pi])
+                    frm.append(".".join(g2.isql(p, q_) for p in path) + (f" AS {al}" if al else ""))
+                    sel.append(rng.choice(["*", (al or g2.isql(path[-1], q_)) + ".*", (al or g2.isql(path[-1], q_)) + "." + g2.isql(rng.choice(cols), q_)]))
+                if "*" in sel:
+                    sel = ["*"]
+                sql2 = "SELECT " + ", ".join(sel) + " FROM " + " CROSS JOIN ".join(frm)
+            else:
+                sql2, _ = g2.select(0, {})
             for _ in range(2):
                 args = [rng.random() < 0.5, rng.random() < 0.4, rng.randint(0, 5)]
                 res = db_default_oracle(sql2, schema2, d2, *args)
